@@ -17,7 +17,7 @@ from ..common import rng_for, b2j
 
 LEVEL = "exploration"
 SHARDS = {"quick": 1, "thorough": 16}
-REQUIRED = ("families_whose_selector_builds_fresh_fields", "truncations_run", "rejections_observed", "accepted_checked_against_model", "leaf_spans_checked",
+REQUIRED = ("families_whose_size_expression_can_go_negative", "families_whose_selector_builds_fresh_fields", "truncations_run", "rejections_observed", "accepted_checked_against_model", "leaf_spans_checked",
             "silent_none_checked", "odd_width_int_truncations", "odd_bits_run_truncations")
 MIN_NONTRIVIAL = 200
 RULE = {
@@ -152,10 +152,21 @@ def run(run):
                     if len(sizes) >= 2:
                         return True
         return False
+    def size_can_go_negative(fam):
+        # Data(field - 1) / Data(3 - field): a corrupted or small steering value makes the declared size negative
+        for d in fam["decls"].values():
+            for f in d["fields"]:
+                if f["t"] == "data" and f.get("mode") == "dyn" and isinstance(f["size"].get("e"), list) and f["size"]["e"][:2] == ["b", "sub"]:
+                    return True
+        return False
+    negative_profile = dict(profile, kinds={"int": 40, "data": 45, "bits": 4, "ref": 8, "sel": 2, "em": 1}, accept=size_can_go_negative)
     fresh_profile = dict(profile, kinds={"int": 30, "data": 16, "bits": 4, "ref": 6, "sel": 40, "em": 1}, p_rep=0.3, accept=builds_fresh_fields)
     import itertools
     for bench in itertools.chain(driver.families(run, rng, profile, VARIANTS, nfam, tag="c04"),
-                                 driver.families(run, rng, fresh_profile, VARIANTS, max(12, nfam // 8), tag="c04f")):
+                                 driver.families(run, rng, fresh_profile, VARIANTS, max(12, nfam // 8), tag="c04f"),
+                                 driver.families(run, rng, negative_profile, VARIANTS, max(12, nfam // 8), tag="c04n")):
+        if size_can_go_negative(bench.fam):
+            run.count("families_whose_size_expression_can_go_negative")
         if builds_fresh_fields(bench.fam):
             run.count("families_whose_selector_builds_fresh_fields")
         fam = bench.fam
